@@ -80,7 +80,7 @@ def pit_cases(draw):
             'full_cost': draw(st.booleans()), 'fold_bn': draw(st.booleans()),
             'wseed': draw(st.integers(0, 30)), 'pseed': draw(st.integers(0, 10 ** 6)),
             'vseed': draw(st.integers(0, 10 ** 6)),
-            'mode': draw(st.sampled_from(['uniform', 'uniform', 'low', 'binary'])),
+            'mode': draw(st.sampled_from(['uniform', 'uniform', 'low', 'binary', 'closed'])),
             # the same specification is assigned again while the masks are partly closed
             'reassign': draw(st.booleans())}
 
@@ -92,7 +92,9 @@ def pit_values(pit, vseed, mode, tag):
     for name, p in pit.named_nas_parameters():
         g = ng._gen(vseed, f"{tag}/{name}")
         u = torch.rand(p.shape, generator=g)
-        if mode == 'low':
+        if mode == 'closed':
+            v = 0.02 + u * 0.4          # every mask element below the threshold (keep-alive only)
+        elif mode == 'low':
             v = 0.05 + u * 0.6
         elif mode == 'binary':
             v = torch.where(u < 0.5, 0.05 + 0.3 * u, 0.7 + u)
@@ -256,6 +258,15 @@ def oracle_pit(case) -> Result:
                 res.bad('cost-decreases-when-mask-magnitudes-grow', metric=name, discrete=disc,
                         smaller=snap, larger=cq)
             if res.discrepancies:
+                return res
+    # the other extreme: every mask parameter at zero (only the keep-alive elements survive)
+    pit_set(pit, {n: torch.zeros_like(p) for n, p in pit.named_nas_parameters()})
+    for name in names:
+        for disc in (False, True):
+            pit.discrete_cost = disc
+            cz = must(res, 'cost', get, name)
+            if cz is None or not _finite_nonneg(res, 'pit', cz, metric=name, discrete=disc,
+                                                masks='all-zero'):
                 return res
     pit_set(pit, open_vals)
     for (name, disc), want in open_costs.items():
